@@ -463,10 +463,31 @@ func (env *Env) asInt(v Value) string {
 }
 
 // coerce converts untyped constants (and nil) to the wanted type.
+func isSpecType(t types.Type) bool {
+	switch t.(type) {
+	case *GhostMap, *RealT, *sentinelType:
+		return true
+	}
+	return false
+}
+
 func (env *Env) coerce(v Value, t types.Type) Value {
 	e := env.e
 	if v.T == t {
 		return v
+	}
+	if isSpecType(v.T) || isSpecType(t) {
+		if isSpecType(v.T) && isSpecType(t) && v.T.String() == t.String() {
+			return Value{T: t, S: v.S}
+		}
+		if isInteger(v.T) && t == realType {
+			return Value{T: t, S: []string{"(to_real " + v.S[0] + ")"}}
+		}
+		if v.T == untypedInt || v.T == untypedFloat {
+			// fall through to the literal cases below
+		} else {
+			specFail("cannot use %s as %s", v.T, t)
+		}
 	}
 	switch {
 	case v.T == untypedInt:
@@ -711,6 +732,22 @@ func (env *Env) call(x *SExpr) Value {
 			return intVal(v.S[0])
 		}
 		specFail("ref() of %s", v.T)
+	case "seqof":
+		v := env.eval(args[0])
+		sl, ok := v.T.Underlying().(*types.Slice)
+		if !ok || len(slotsOf(sl.Elem())) != 1 {
+			specFail("seqof needs a slice of scalars")
+		}
+		sd := slotsOf(sl.Elem())[0]
+		arr := e.compTerm(env.st, elemComp(sl.Elem(), sd.Path), "(Array Int (Array Int "+sd.Sort+"))")
+		return Value{T: &GhostMap{K: tInt, V: sl.Elem()}, S: []string{"(select " + arr + " " + v.S[0] + ")"}}
+	case "sumto":
+		m := env.eval(args[0])
+		n := env.eval(args[1])
+		if gm, ok := m.T.Underlying().(*GhostMap); !ok || !isInteger(gm.V) {
+			specFail("sumto needs a gmap[int]int")
+		}
+		return intVal("(sumto " + m.S[0] + " " + env.asInt(n) + ")")
 	case "arrayOf":
 		v := env.eval(args[0])
 		if !isSlice(v.T) {
